@@ -6,6 +6,6 @@ S=/verif/seeded/$1; [ -d "$S" ] || S=/verif/mutants/$1; P=$2; T=${3:-quick}
 [ -z "$(git -C /repo status --porcelain --untracked-files=no)" ] || { echo "/repo is not clean"; exit 2; }
 git -C /repo apply $S/patch.diff || exit 2
 cd /verif && ./run.sh $P $T > out/seedrun-$1-$P.log 2>&1; rc=$?
-git -C /repo checkout -- . 
+git -C /repo checkout -- . ; git -C /repo clean -fdq -- tensor component   # files a patch ADDED are untracked: remove them too
 echo "$1 vs $P $T: exit=$rc $(grep -c '^VIOLATION' out/seedrun-$1-$P.log) VIOLATION lines; $(grep -m1 -A1 '^VIOLATION' out/seedrun-$1-$P.log | tail -1 | cut -c1-220)"
 exit $rc
